@@ -287,6 +287,11 @@ def scenario_gen(cfg, seed):
         yield hashlib.sha256(repr((sorted((repr(k), fhex(v)) for k, v in r0.items()), len(xs_), len(ys_))).encode()).hexdigest()[:12]
     for t in range(steps):
         x, y = _STREAMS[skey][t]
+        if cfg.get("checkpoint_at") == t:
+            # checkpoint: explainer, storage and imputer are deep-copied TOGETHER (their mutual references preserved) and the stream
+            # continues on the copies; the originals are dropped
+            import copy
+            e, st, imp = copy.deepcopy((e, st, imp))
         if kind in ("batch", "batch-many"):
             r = e.explain_one(x, y, verbose=False, original_sage=cfg.get("original_sage", False))
         elif kind == "interval":
@@ -331,7 +336,7 @@ def main(run):
                 "float stream, hashing bit patterns (float.hex) of importance values, variances and storage / reservoir contents after "
                 "EVERY call; compared bit-for-bit: (a) two replays in one process, (b) a replay after a junk preamble (other library "
                 "objects created and used, GC churn, sleep) before seeding, (c) replays in fresh subprocesses with the same "
-                "PYTHONHASHSEED with and without preamble, (b2) a twin whose model hands out one shared dict object per distinct input instead of fresh equal dicts, (d) sanity: a different seed must change some digest, otherwise the "
+                "PYTHONHASHSEED with and without preamble, (b3) a twin that continues on a deep copy of explainer + storage + imputer taken mid-stream, (b2) a twin whose model hands out one shared dict object per distinct input instead of fresh equal dicts, (d) sanity: a different seed must change some digest, otherwise the "
                 "scenario is trivial and not counted; evaluations = replay comparisons; non-trivial = scenarios whose digests depend "
                 "on the seed, distinct by configuration")
     run.assumptions = ["same interpreter configuration includes PYTHONHASHSEED", "seeding precedes construction",
@@ -361,6 +366,8 @@ def main(run):
             c = scenario(cfg, seed)
             other = scenario(cfg, seed + 1) if not cfg.get("drift") else None
             ident = scenario(dict(cfg, output_identity="shared"), seed) if cfg.get("model") not in STATEFUL_MODELS and not cfg.get("drift") else None
+            ckpt_at = [2, 5, max(1, len(a) // 2)][i % 3]
+            ckpt = scenario(dict(cfg, checkpoint_at=ckpt_at), seed) if not cfg.get("drift") else None
             del keep
         except Exception as ex:
             run.ok(kind="in-process")
@@ -373,6 +380,12 @@ def main(run):
                 step = next((i for i, (p, q) in enumerate(zip(a, dgs)) if p != q), None)
                 run.violation("in-process-divergence" if name == "second replay" else "history-dependence",
                               f"{name} diverges at call {step} for cfg {cfg}", replay)
+        if ckpt is not None:
+            run.ok(kind="checkpoint-twin")
+            if ckpt != a:
+                step = next((k_ for k_, (p_, q_) in enumerate(zip(a, ckpt)) if p_ != q_), None)
+                run.violation("object-identity-dependence", f"cfg {cfg}: continuing on a deep copy of (explainer, storage, imputer) taken before call {ckpt_at} "
+                                                            f"changes the results from call {step} on", dict(replay, checkpoint_at=ckpt_at))
         if ident is not None:
             run.ok(kind="output-identity-twin")
         if ident is not None and ident != a:
